@@ -43,6 +43,11 @@ def steps_of(repo: Repo, key: str) -> Dict[str, list]:
                 out["collect"].append(n)
         for c in node_calls(n):
             keys = {t.key for t in cg.call_targets(f, c)[0]}
+            if isinstance(c.func, ast.Attribute) and c.func.attr == "_changes" and n not in out["collect"]:
+                # comprehension / generator form: [... for s in <state>.snapshots.values() for c in s._changes()]
+                for comp in [x for r in __import__("sa.cfg", fromlist=["own_exprs"]).own_exprs(n) for x in ast.walk(r) if isinstance(x, (ast.ListComp, ast.GeneratorExp, ast.SetComp))]:
+                    if any(norm(g.iter).endswith("snapshots.values()") for g in comp.generators):
+                        out["collect"].append(n)
             if "_change.py::apply_all" in keys:
                 out["apply_all"].append(n)
             if "_find_external.py::ensure_import" in keys:
